@@ -1042,15 +1042,14 @@ impl DhcpService {
         }
     }
 
-    pub async fn get_leases(self: &std::sync::Arc<Self>) -> Vec<pool::LeaseInfo> {
+    pub async fn get_leases(
+        self: &std::sync::Arc<Self>,
+    ) -> Result<Vec<pool::LeaseInfo>, pool::Error> {
         let ret = self.pool.lock().await.get_leases();
-        match ret {
-            Ok(l) => l,
-            Err(e) => {
-                log::warn!("Failed to get leases: {}", e);
-                Vec::new()
-            }
+        if let Err(e) = &ret {
+            log::warn!("Failed to get leases: {}", e);
         }
+        ret
     }
 }
 
